@@ -198,6 +198,15 @@ def core_shapes() -> List[Shape]:
         reads={"f2": ["v1"], "f3": ["v2"], "f5": ["v3"]},
         vtype={"v1": "int", "v2": "int", "v3": "int"}, tags=["runtime-after-two-helpers"]))
 
+    # s_rtinline: one plain helper directly before a keep with a run-time argument (the realisation
+    # `inline_call_args` writes the helper call inside the argument expression)
+    S.append(Shape(
+        "rtinline", "f1",
+        {"f1": [call("f2"), keep("/ri/r", "f3", "runtime"), keep("/ri/k", "f4")],
+         "f2": [call("f5")], "f3": [], "f4": [], "f5": []},
+        reads={"f2": ["v1"], "f5": ["v2"], "f4": ["v3"]},
+        vtype={"v1": "int", "v2": "int", "v3": "int"}, tags=["runtime-after-one-helper"]))
+
     # s_shared: one kept node used from two parents (shared sub-node), higher-order reference
     S.append(Shape(
         "shared", "f1",
